@@ -586,6 +586,24 @@ pub struct Fabric {
 /// `OperationalCredentials::SetVIDVerificationStatement.vid_verification_statement`.
 pub const VID_VERIFICATION_STATEMENT_LEN: usize = 85;
 
+#[cfg(feature = "verif")]
+impl Fabric {
+    /// Replace the stored NOC / ICAC bytes without any processing: lets the verification harness
+    /// play a peer that presents an arbitrary certificate chain during CASE.
+    pub fn verif_set_certs(&mut self, noc: &[u8], icac: &[u8]) -> Result<(), Error> {
+        self.noc.clear();
+        self.noc
+            .extend_from_slice(noc)
+            .map_err(|_| ErrorCode::ResourceExhausted)?;
+        self.icac_or_vvsc.clear();
+        self.icac_or_vvsc
+            .extend_from_slice(icac)
+            .map_err(|_| ErrorCode::ResourceExhausted)?;
+        self.vvsc_set = false;
+        Ok(())
+    }
+}
+
 impl Fabric {
     /// Return an in-place-initializer for a Fabric type, with the
     /// provided Fabric Index and KeyPair
